@@ -44,8 +44,8 @@ def drop_identity(s):
 
 def sib_async(R, rule, Y, a, b):
     fa, fb = Y.fn(a), Y.fn(b)
-    sa = drop_identity(SK.rename(unwrap_async(SK.skel(fa.hir["body"])), ASYNC_SUBS))
-    sb = drop_identity(SK.rename(unwrap_async(SK.skel(fb.hir["body"])), ASYNC_SUBS))
+    sa = SK.linearize(drop_identity(SK.rename(unwrap_async(SK.skel(fa.hir["body"])), ASYNC_SUBS)))
+    sb = SK.linearize(drop_identity(SK.rename(unwrap_async(SK.skel(fb.hir["body"])), ASYNC_SUBS)))
     ds = SK.diff(sa, sb)
     R.touch(fa)
     R.touch(fb)
